@@ -640,4 +640,59 @@ def r6_leaf_literals(a, tier, rule_id='C02.R6'):
     return rep
 
 
-RULES = [r1_exhaustive, r2_primitives, r3_rule_transfer, r4_emission, r5_context_free_emission, r6_leaf_literals]
+def r7_generated_configuration(a, tier, rule_id='C02.R7'):
+    import itertools
+    import textwrap
+
+    from ..minieval import Obj, Unsupported
+    from ..modelinterp import Hook, ModelInterp, Stub
+    rep = RuleReport(
+        rule_id,
+        'the generated parser is configured like the model: _gen_init, interpreted on stand-in grammars for every combination of '
+        'whitespace (default / None / a regex), nameguard (unset / True / False), namechars, ignorecase, parseinfo and comments, prints '
+        'a ParserConfig.new(...) call whose keyword values, read back with ast.literal_eval, are the settings of the model - an unset '
+        'setting stays unset (None) so that the run-time default rules of the input classes decide, exactly as for the model',
+        floor=30,
+    )
+    gi = a.p.func(f'{GEN}._gen_init')
+    und = object()
+    n_bad = 0
+    for ws, ng, nc, ic, pi, cm in itertools.product((und, None, '[ ]+'), (None, True, False), ('', '-'), (False, True), (False, True), (None, '#.*')):
+        cfg = Obj(start='expr', whitespace=ws, nameguard=ng, namechars=nc, ignorecase=ic, parseinfo=pi, comments=cm, eol_comments=None)
+        grammar = Stub('tatsu.peg.base.Grammar', config=cfg, directives={}, name='G', rules=[Obj(name='expr')])
+        out = []
+        gen = Stub(GEN, print=Hook(lambda *x, **_k: out.append(' '.join(str(y) for y in x))))
+        it = ModelInterp(a, {'Undefined': und, 'regexpp': Hook(lambda r_: repr(r_))})
+        try:
+            it.call_fn(gi, [gen, grammar])
+        except Unsupported as e:
+            raise AnalysisError(f'cannot interpret {gi.qualname}: {e}') from e
+        text = textwrap.dedent('\n'.join(out))
+        got = {}
+        try:
+            for n in ast.walk(ast.parse(text)):
+                if isinstance(n, ast.Call) and dotted(n.func) == 'ParserConfig.new':
+                    for k in n.keywords:
+                        try:
+                            got[k.arg] = ast.literal_eval(k.value)
+                        except ValueError:
+                            got[k.arg] = norm(k.value)
+        except SyntaxError:
+            got = {'<unparsable>': text[:80]}
+        want = {'name': 'G', 'whitespace': None if ws is und else ws, 'nameguard': ng, 'ignorecase': ic, 'namechars': nc, 'parseinfo': pi,
+                'comments': cm, 'eol_comments': None, 'keywords': 'KEYWORDS', 'start': 'expr', 'config': 'config'}
+        diff = {k: (got.get(k, '<missing>'), v) for k, v in want.items() if got.get(k, '<missing>') != v or type(got.get(k)) is not type(v)}
+        rep.add({'model_settings': {'whitespace': 'default' if ws is und else ws, 'nameguard': ng, 'namechars': nc, 'ignorecase': ic, 'parseinfo': pi, 'comments': cm},
+                 'generated_differs_in': {k: list(map(repr, v)) for k, v in diff.items()}})
+        if diff and n_bad < 6:
+            n_bad += 1
+            k0 = sorted(diff)[0]
+            rep.fail(gi.qualname, f'generated-config:{k0}:{diff[k0][0]!r}', f'for a model with whitespace={"default" if ws is und else repr(ws)}, '
+                     f'nameguard={ng}, namechars={nc!r}, ignorecase={ic}, parseinfo={pi}, comments={cm!r} the generated parser is configured '
+                     f'with {", ".join(f"{k}={v[0]!r} (model: {v[1]!r})" for k, v in sorted(diff.items()))}: it accepts other inputs than the '
+                     f'model (e.g. nameguard=False written out for a grammar that leaves it unset matches `null` as a prefix of `nullable`)',
+                     gi.loc)
+    return rep
+
+
+RULES = [r1_exhaustive, r2_primitives, r3_rule_transfer, r4_emission, r5_context_free_emission, r6_leaf_literals, r7_generated_configuration]
